@@ -14,6 +14,7 @@ import os
 import extie
 import c02gauss
 import c02bridge
+import c02cpp
 import c02exotic
 import c02weights
 import gridlib as gl
@@ -105,6 +106,8 @@ def run(res, tier, seed, replay_script=None):
         c02gauss.run(res, tier, seed)
         # the weights form the code assembles (sum of w(t) x tensor rule) equals the difference form of the theorems (Properties_C02_bridge.v)
         c02bridge.run(res)
+        # the C++-shaped model tw_cpp (resortIndexes map / lines1d, sweeps by position) equals the line-based function of the theorems, every dimension (Properties_C02_cpp.v)
+        c02cpp.run(res)
         # exotic (Addons/tsgExoticQuadrature.hpp) and custom-tabulated rules: every declared monomial against exact rational moments, shifts of every sign
         c02exotic.run(res, tier, seed)
         px = vlib.coq_props("C02_exotic")
